@@ -50,7 +50,8 @@ NoOutcome == [k |-> "none"]
 \* the form of the call (see ChooseForm)
 NoForm == [set |-> FALSE]
 DefaultForm == [set |-> TRUE, cont |-> "list", naming |-> "plain", subst |-> "map", psym |-> "default",
-                num |-> "int", calls |-> 1, modearg |-> "plain", allow |-> FALSE, keys |-> "plain"]
+                num |-> "int", calls |-> 1, modearg |-> "plain", allow |-> FALSE, keys |-> "plain",
+                names |-> "same", prior |-> "same"]
 
 ------------------------------------------------------------------------------
 (* the signed matrix *)
@@ -341,21 +342,33 @@ ChooseMode(m) ==
 (*   calls   the observation is the outcome of the first / second call with the same objects   *)
 (*   modearg mode None passed as None ("plain") or as the deprecated literal 1 ("one")         *)
 (*   allow   allow_duplicates flag (must be TRUE when duplicates are declared)                 *)
+(*           (extended: cont also a dict keys view or a one-shot generator; num also floats   *)
+(*           with explicit 0.0, numpy scalars, sympy numbers, fractions.Fraction; modearg also *)
+(*           "zero": mode False passed as the falsy literal 0)                                *)
+(*   names   Substance.name equals the mapping key / differs from it (alias keys)             *)
+(*   prior   with calls = 2: the earlier call used the same problem / OTHER compositions for   *)
+(*           the same keys (mapping edited in place, or another factory) - no result may be   *)
+(*           remembered from one call to the next                                             *)
 (*   keys    which composition key stands for which row: in row order / in reversed order     *)
 (*           (the code sorts the keys, so this permutes the rows of its matrix)                *)
 IsForm(f) ==
     /\ DOMAIN f = DOMAIN DefaultForm /\ f.set = TRUE
-    /\ f.cont \in {"list", "tuple", "set", "frozenset", "dict"}
+    /\ f.cont \in {"list", "tuple", "set", "frozenset", "dict", "keysview", "generator"}
     /\ f.naming \in {"plain", "reversed"}
     /\ f.subst \in {"map", "superset", "str", "none"}
     /\ f.psym \in {"default", "user_int", "user_plain"}
-    /\ f.num \in {"int", "float", "explicit0"}
+    /\ f.num \in {"int", "float", "explicit0", "explicit0f", "numpy", "sympy", "fraction"}
     /\ f.calls \in {1, 2}
-    /\ f.modearg \in {"plain", "one"}
+    /\ f.modearg \in {"plain", "one", "zero"}
     /\ f.allow \in BOOLEAN
+    /\ f.keys \in {"plain", "reversed"}
+    /\ f.names \in {"same", "alias"}
+    /\ f.prior \in {"same", "other"}
 \* (the deprecated literal 1 is an alias of None only without duplicates: allow_duplicates is documented
 \*  to require underdetermined=None itself)
 FormFits(f) == /\ (f.modearg = "one" => (mode = "None" /\ dupl = {}))
+               /\ (f.modearg = "zero" => mode = "False")
+               /\ (f.cont = "generator" => f.calls = 1)     \* a one-shot iterator serves one call
                /\ (dupl # {} => f.allow)
 ChooseForm(f) ==
     /\ stage = "mode" /\ ~form.set
@@ -395,7 +408,10 @@ GenDupl == "some" \in DuplModes /\ \E D \in SUBSET MatchPairs : ChooseDupl(D)
 GenMode == \E m \in Modes : ("none" \in DuplModes \/ dupl # {}) /\ ChooseMode(m)
 \* the form is adjusted to what the problem requires (duplicates need the flag, "one" needs mode None)
 FitForm(f) == [f EXCEPT !.allow = (f.allow \/ dupl # {}),
-                         !.modearg = IF mode = "None" /\ dupl = {} THEN f.modearg ELSE "plain"]
+                         !.calls = IF f.cont = "generator" THEN 1 ELSE f.calls,
+                         !.modearg = IF f.modearg = "plain" THEN "plain"
+                                     ELSE IF mode = "None" /\ dupl = {} THEN "one"
+                                     ELSE IF mode = "False" THEN "zero" ELSE "plain"]
 GenForm == \E f \in Forms : ChooseForm(FitForm(f))
 
 \* candidate outcomes for the Accept self-check (small models only)
